@@ -1425,6 +1425,11 @@ def kkt_chol2(G, dims, A, mnl = 0):
             if H is not None: 
                 F['S'] += H
             try:
+                # Without H, the rank of S is at most mnl + ml.  If this
+                # is less than n, S is singular and a Cholesky 
+                # factorization can only succeed by rounding.
+                if H is None and mnl + ml < n:
+                    raise ArithmeticError("singular matrix")
                 if type(F['S']) is matrix: 
                     lapack.potrf(F['S']) 
                 else:
